@@ -137,3 +137,15 @@ def _single_target_multi_source(spec):
 def _m_scalar_index(job, rec, k):
     return (rec.get('kind') == 'emitted-function-raises' and 'setting an array element with a sequence' in rec.get('what', '')
             and job.get('vectorize') and _single_target_multi_source(job['spec']))
+
+
+@matcher('parallel-edges-attr-keyerror')
+def _m_par_keyerror(job, rec, k):
+    if rec.get('kind') != 'compile-raises' or 'KeyError' not in rec.get('what', ''):
+        return False
+    spec = job['spec']
+    groups = {}
+    for e in spec.edges:
+        attrs = tuple(sorted(a for a in ('weight', 'delay', 'spread') if getattr(e, a) is not None))
+        groups.setdefault((e.src, e.tgt, e.template), set()).add(attrs)
+    return any(len(a) > 1 for a in groups.values())
